@@ -44,6 +44,7 @@ def _case(draw, tier):
         # the same selection
         c["indices"] = draw(indices_for(len(c["trains"]), allow_none=False))
     c["compiled"] = draw(st.booleans())
+    c["alias_equal"] = draw(st.booleans())
     return c
 
 
